@@ -330,4 +330,24 @@ theorem shiftRight_spec (dflt : α) (P R S : List α) (n : Int) :
       · simp only [List.append_assoc]
       · intro h
         omega
+theorem shiftRightNoFill_spec (P R S : List α) (n : Int) :
+    ∃ Z, shiftRightNoFill (P ++ R ++ S) P.length (P.length + R.length) n
+          = .ok (P ++ (Z ++ (Spec.shiftRight R n).1) ++ S, P.length + (Spec.shiftRight R n).2)
+        ∧ Z.length = (Spec.shiftRight R n).2
+        ∧ ((n ≤ 0 ∨ n ≥ (R.length : Int)) → Z ++ (Spec.shiftRight R n).1 = R) := by
+  unfold shiftRightNoFill Spec.shiftRight
+  by_cases h0 : n ≤ 0
+  · rw [if_pos h0, if_pos h0]
+    exact ⟨[], by simp, by simp, by simp⟩
+  · rw [if_neg h0, if_neg h0]
+    by_cases h1 : n ≥ ((P.length + R.length - P.length : Nat) : Int)
+    · rw [if_pos h1, if_pos (by omega)]
+      exact ⟨R, by simp, by simp, by simp⟩
+    · rw [if_neg h1, if_neg (by omega)]
+      rw [copy_shiftRight_core P R S n.toNat (by omega), ok_bind]
+      simp only []
+      have hm : n.toNat ≤ R.length := by omega
+      refine ⟨R.take n.toNat, rfl, by simp [Nat.min_eq_left hm], ?_⟩
+      intro h
+      omega
 end Tetl.C06
